@@ -70,6 +70,7 @@ def oracle(case, line):
     prev = init_state()
     unl = {}      # slave list -> [window start, payload] while the ROOT is unlimited and the slave rate > 0
     acct = {}     # list -> [budget, payload] while the root is limited
+    starve2 = {}  # any list under a limited root -> consecutive ticks after which it holds nothing while a node waits
     starve = {}   # slave list with rate 0 under a limited root -> consecutive ticks with a node kept inactive
     flagged = set()
     waitc = {}    # (list, node) waiting -> [updates allowed before it must be active, good updates survived]
@@ -149,6 +150,7 @@ def oracle(case, line):
             # update that found min_chunk in the pool. Counters restart when chunk sizes change (set_max_rate).
             if k == "R":
                 waitc.clear()
+                starve2.clear()
             if k == "T" or (k == "R" and int(op[1]) == 0 and not prev["lists"][0]["e"] and st["lists"][0]["e"]):
                 for li, L in enumerate(st["lists"]):
                     if li >= len(prev["lists"]):
@@ -227,6 +229,20 @@ def oracle(case, line):
                                         "its deactivated node got no quota over %d ticks %s" % (li, starve[li], where)))
                     else:
                         starve.pop(li, None)
+                    # the same for EVERY list that shares the root's limit (the root's own list, slaves with or without
+                    # a rate of their own): the round-robin cursor starts a tick at each list at least once every
+                    # len(lists) ticks (cursor_reaches_every_list), so a list whose waiter holds nothing and which
+                    # itself holds nothing after each of 2*len(lists)+3 consecutive granting ticks is starved
+                    own = (st["now"] - prev["lt"]) * L["rate"] // 10**6 if (li >= 1 and L["rate"]) else grant_t
+                    if li < len(prev["lists"]) and L["e"] and prev["lists"][li]["I"] and L["I"] and grant_t >= 1 and own >= 1 and held(L) == 0 \
+                            and prev["rate"] == st["rate"] and len(prev["lists"]) == len(st["lists"]):
+                        starve2[li] = starve2.get(li, 0) + 1
+                        if starve2[li] >= 2 * len(st["lists"]) + 3 and "starve2" not in flagged:
+                            flagged.add("starve2")
+                            bad.append(("list-starved", "list %d has a deactivated connection under a limited root but was handed no quota "
+                                        "by %d consecutive ticks (other lists take every tick's grant) %s" % (li, starve2[li], where)))
+                    else:
+                        starve2.pop(li, None)
             # fixed burst: whatever a list holds is bounded independently of how long it has been idle
             if k == "T" and root_on:
                 maxg["g"] = max(maxg.get("g", 0), (st["now"] - prev["lt"]) * prev["rate"] // 10**6)
